@@ -11,6 +11,8 @@ package main
 //        ExcelDateToTime on the stored value.
 //        result:  text | num e=<within error bound> S=<day>:<sec>|- r=<Y M D h m s ns>
 //   dec <sys> <bits>     ExcelDateToTime on an arbitrary float64
+//   encf <sys> <unixsec> <ns>   timeToExcelTime (hook) on the instant: float64 bit pattern of the result,
+//                        compared bit for bit with the model's float-level transcription
 //   civ <z>              time.Unix(z*86400).UTC().Date() and back (ties the calendar model to package time)
 //   flg <jd>             doTheFliegelAndVanFlandernAlgorithm
 //
@@ -473,6 +475,25 @@ func c19dec(r *Run, sys bool, x float64) {
 	}
 }
 
+// c19encf ties the float-level model (which float64 operations, in which order) to the code.
+func c19encf(r *Run, sys bool, sec int64, ns int) {
+	t := time.Unix(sec, int64(ns)).UTC()
+	op := fmt.Sprintf("encf %s %d %d", c19sysS(sys), sec, ns)
+	res := "PANIC"
+	func() {
+		defer func() { _ = recover() }()
+		x, err := xl.VerifC19TimeToExcelTime(t, sys)
+		if err != nil {
+			res = "ERR"
+			return
+		}
+		res = fmt.Sprintf("%016x", math.Float64bits(x))
+	}()
+	r.Op(op, res)
+	r.Case(op, true)
+	r.Stat("encf")
+}
+
 func c19civ(r *Run, z int64) {
 	t := time.Unix(z*86400, 0).UTC()
 	y, m, d := t.Date()
@@ -782,6 +803,39 @@ func runC19(r *Run, rng *Rng, replay string) {
 		c19dec(r, rng.Bool(), x)
 	}
 
+	// 3b. float-level encoder: bit pattern of timeToExcelTime -------------------------------------------
+	{
+		nF := 30000
+		if thorough {
+			nF = 400000
+		}
+		flo := time.Date(1899, 12, 29, 0, 0, 0, 0, time.UTC).Unix()
+		for i := 0; i < nF; i++ {
+			u := flo + int64(rng.U64()%uint64(hi-flo+1))
+			switch rng.Intn(8) {
+			case 0: // first years (small serials, Julian decode path)
+				u = flo + int64(rng.Intn(6*365*86400))
+			case 1: // around a chunk boundary / the Duration saturation point
+				k := int64(rng.Range(1, 27))
+				base := time.Date(1899, 12, 31, 0, 0, 0, 0, time.UTC).Unix()
+				if rng.Bool() {
+					base = time.Date(1904, 1, 1, 0, 0, 0, 0, time.UTC).Unix()
+				}
+				u = base + k*105560*86400 + int64(rng.Range(-3, 3)) + int64(rng.Intn(2))*(106751*86400+85636-105560*86400)
+			}
+			ns := 0
+			if rng.Chance(25) {
+				ns = rng.Intn(1000000000)
+			}
+			c19encf(r, rng.Bool(), u, ns)
+		}
+		for _, u := range []int64{flo, flo + 86400, flo + 2*86400, flo + 2*86400 + 1, lo - 1, lo, lo + 1, hi, hi + 1, hi + 86400*365*300} {
+			c19encf(r, false, u, 0)
+			c19encf(r, true, u, 0)
+			c19encf(r, false, u, 999999999)
+		}
+	}
+
 	// 4. calendar and Fliegel sweeps ---------------------------------------------------------------
 	civStride := int64(97)
 	if thorough {
@@ -846,6 +900,11 @@ func c19replay(r *Run, path string) {
 			b, err := strconv.ParseUint(w[2], 16, 64)
 			if err == nil {
 				c19dec(r, w[1] == "1", math.Float64frombits(b))
+			}
+		case "encf":
+			if len(w) >= 4 {
+				sec, _ := strconv.ParseInt(w[2], 10, 64)
+				c19encf(r, w[1] == "1", sec, atoi(w[3]))
 			}
 		case "civ":
 			if len(w) >= 2 {
